@@ -3,7 +3,11 @@
 (* of a small space, every history of abstract transitions up to MaxSteps     *)
 (* (accepted with any set of changed states, rejected, check), Sync points,   *)
 (* Export/Import restarts; the write-behind queue, the lagging Saved counter  *)
-(* and both orders of the GC / batch-write race for the persistent backends.  *)
+(* and both orders of the GC / batch-write race for the persistent backends;  *)
+(* PROCESS RESTARTS of the persistent backends (Reopen: the process stops     *)
+(* after Sync, a new memory opens the same store - its counters, its          *)
+(* predecessor record and, for a machine that does not resume from an         *)
+(* Export, the clocks start again - and the history goes on).                 *)
 (* The formulas of property C17 are computed in the action (verdict) for the  *)
 (* behaviour the model gives the backend: with the flags of History.tla TRUE  *)
 (* (code as it is) TLC reports the modelled defects, with the flags FALSE     *)
@@ -16,16 +20,24 @@ CONSTANTS Backend,      \* "memory" | "bbolt" | "badger" | "gorm"
           UseLists,     \* include Called / Changed allow and block lists
           CheckQueries, \* evaluate the whole query space in every state
           MaxMax, MaxBatch,
-          MaxConds      \* state conditions combined in one query (1..4)
+          MaxConds,     \* state conditions combined in one query (1..4)
+          MaxRestarts,  \* process restarts on the same store (persistent backends)
+          GcFromSaved   \* NOT the code: a rotation that keeps MaxRecords below the
+                        \* per-process Saved counter instead of below the newest id
+                        \* (TRUE only to see RotationTrims / Bounded fail after a Reopen)
 
-VARIABLES cfg, time, machTick, made, db, pend, saved, savedGc, steps, verdict
+VARIABLES cfg, time, machTick, made, db, pend, saved, savedGc, steps, verdict,
+          pstart,    \* records created before this process opened the store
+          opened,    \* records this process found in the store
+          restarts
 
-mvars == <<cfg, time, machTick, made, db, pend, saved, savedGc, steps, verdict>>
+mvars == <<cfg, time, machTick, made, db, pend, saved, savedGc, steps, verdict, pstart, opened, restarts>>
 
 States == 1..NS
 Lists == IF UseLists THEN {<<>>} \cup {<<s>> : s \in States} ELSE {<<>>}
 TrackedSpace ==
-  IF CheckQueries THEN {<<1>>, <<2, 1>>}
+  IF NS = 1 THEN {<<1>>}
+  ELSE IF CheckQueries THEN {<<1>>, <<2, 1>>}
   ELSE IF UseLists THEN {<<1>>} ELSE {<<1, 2>>}
 
 CfgSpace ==
@@ -40,7 +52,7 @@ CfgSpace ==
      /\ (~c.changedEx => SSet(c.changed) \subseteq SSet(c.tracked))}
 
 AllTrue == [match |-> TRUE, bounded |-> TRUE, keeps |-> TRUE, query |-> TRUE,
-            order |-> TRUE, import |-> TRUE]
+            order |-> TRUE, import |-> TRUE, trims |-> TRUE]
 
 Zero == [i \in States |-> 0]
 
@@ -49,6 +61,7 @@ MCInit ==
   /\ time = Zero /\ machTick = 0
   /\ made = <<>> /\ db = <<>> /\ pend = <<>>
   /\ saved = 0 /\ savedGc = 0 /\ steps = 0
+  /\ pstart = 0 /\ opened = 0 /\ restarts = 0
   /\ verdict = AllTrue
 
 (* without lists the called states do not influence anything                 *)
@@ -81,11 +94,13 @@ KeepFrom(next, max) ==
 
 Gc(L, next, max) == SelectSeq(L, LAMBDA r : r.id >= KeepFrom(next, max))
 
-StoreVerdict(c, made2, db2, pend2, match) ==
+(* opn = records the process found, rot = it has rotated, trims = the verdict *)
+(* of RotationTrims for a rotation of this step (TRUE when there was none)    *)
+StoreVerdict(c, made2, db2, pend2, match, opn, rot, trims) ==
   LET J == IF ~CheckQueries \/ pend2 # <<>> THEN {} ELSE Judged(c, made2, db2) IN
-  [match |-> match,
+  [match |-> match, trims |-> trims,
    bounded |-> IF Backend = "memory" THEN BoundedExact(c.max, Len(made2), Ids(db2))
-               ELSE BoundedLoose(c.max, c.batch, Ids(db2)),
+               ELSE BoundedLooseR(c.max, c.batch, Ids(db2), opn, rot),
    keeps |-> pend2 # <<>> \/ KeepsNewest(c.max, Len(made2), Ids(db2)),
    query |-> \A j \in J : j[1],
    order |-> InOrder(Ids(db2)) /\ \A j \in J : j[2],
@@ -102,7 +117,7 @@ Tx ==
                      check |-> (kind = "check"), mtype |-> 0, machTick |-> machTick,
                      mi |-> steps + 1]
               m == MatchImpl(Backend, cfg, tx)
-              prev == IF made = <<>> THEN None ELSE made[Len(made)]
+              prev == IF Len(made) = pstart THEN None ELSE made[Len(made)]
               r == MkRec(cfg, tx, prev, Len(made) + 1)
               made2 == IF m THEN Append(made, r) ELSE made
               next2 == Len(made2) + 1
@@ -112,12 +127,15 @@ Tx ==
               seen == IF stale THEN saved ELSE saved2
               gc == /\ flush /\ 2 * (seen - savedGc) > 3 * cfg.max
                     /\ ~(Backend = "gorm" /\ GormNoGc)
+              \* the id the rotation trims below: the newest one (bbolt.go:819)
+              top == IF GcFromSaved THEN seen + 1 ELSE next2
               db2 == IF Backend = "memory"
                      THEN (IF m THEN RotateAppend(db, r, cfg.max) ELSE db)
                      ELSE IF ~flush THEN db
                      ELSE IF ~gc THEN db \o pend1
-                     ELSE IF gcFirst THEN Gc(db, next2, cfg.max) \o pend1
-                     ELSE Gc(db \o pend1, next2, cfg.max)
+                     ELSE IF gcFirst THEN Gc(db, top, cfg.max) \o pend1
+                     ELSE Gc(db \o pend1, top, cfg.max)
+              savedGc2 == IF gc THEN saved2 ELSE savedGc
               pend2 == IF Backend = "memory" \/ flush THEN <<>> ELSE pend1
               ok == (MustMatch(cfg, tx) => m) /\ (MustNotMatch(cfg, tx) => ~m)
           IN  /\ (~flush => stale /\ gcFirst)
@@ -125,19 +143,20 @@ Tx ==
               /\ time' = ta
               /\ made' = made2 /\ db' = db2 /\ pend' = pend2
               /\ saved' = saved2
-              /\ savedGc' = IF gc THEN saved2 ELSE savedGc
-              /\ verdict' = StoreVerdict(cfg, made2, db2, pend2, ok)
+              /\ savedGc' = savedGc2
+              /\ verdict' = StoreVerdict(cfg, made2, db2, pend2, ok, opened, savedGc2 > 0,
+                                         gc => RotationTrims(cfg.max, cfg.batch, Len(made) + 1, Ids(db2)))
   /\ steps' = steps + 1
-  /\ UNCHANGED <<cfg, machTick>>
+  /\ UNCHANGED <<cfg, machTick, pstart, opened, restarts>>
 
 (* Sync(): the queue is written, no GC attempt                                *)
 SyncAct ==
   /\ Backend # "memory" /\ pend # <<>> /\ steps < MaxSteps
   /\ db' = db \o pend /\ pend' = <<>>
   /\ saved' = saved + Len(pend)
-  /\ verdict' = StoreVerdict(cfg, made, db \o pend, <<>>, TRUE)
+  /\ verdict' = StoreVerdict(cfg, made, db \o pend, <<>>, TRUE, opened, savedGc > 0, TRUE)
   /\ steps' = steps + 1
-  /\ UNCHANGED <<cfg, time, machTick, made, savedGc>>
+  /\ UNCHANGED <<cfg, time, machTick, made, savedGc, pstart, opened, restarts>>
 
 (* Machine.Export -> Machine.Import (machine.go:3340-3419): the clocks are    *)
 (* restored by name, the active states are the odd clocks, MachineTick + 1    *)
@@ -155,9 +174,22 @@ Restart ==
      IN /\ time' = im.time /\ machTick' = im.machTick
         /\ verdict' = [verdict EXCEPT !.import = ImportRestores(x)]
   /\ steps' = steps + 1
-  /\ UNCHANGED <<cfg, made, db, pend, saved, savedGc>>
+  /\ UNCHANGED <<cfg, made, db, pend, saved, savedGc, pstart, opened, restarts>>
 
-MCNext == Tx \/ SyncAct \/ Restart
+(* The process stops after Sync (nothing queued) and a new one opens the same *)
+(* store: NewMemory + MachineInit.  The ids go on from the persisted NextId;  *)
+(* Saved / SavedGc / lastRec belong to the memory object and start again; the *)
+(* machine either resumes from an Export (clocks kept) or is a new one.       *)
+Reopen ==
+  /\ Backend \in Persistent /\ pend = <<>> /\ restarts < MaxRestarts /\ steps < MaxSteps
+  /\ \E fresh \in BOOLEAN : time' = IF fresh THEN Zero ELSE time
+  /\ saved' = 0 /\ savedGc' = 0
+  /\ pstart' = Len(made) /\ opened' = Len(db) /\ restarts' = restarts + 1
+  /\ verdict' = StoreVerdict(cfg, made, db, <<>>, TRUE, Len(db), FALSE, TRUE)
+  /\ steps' = steps + 1
+  /\ UNCHANGED <<cfg, machTick, made, db, pend>>
+
+MCNext == Tx \/ SyncAct \/ Restart \/ Reopen
 
 MCSpec == MCInit /\ [][MCNext]_mvars
 
@@ -167,6 +199,7 @@ Inv_KeepsNewest == verdict.keeps
 Inv_QueryExact == verdict.query
 Inv_NewestFirst == verdict.order
 Inv_ImportRestores == verdict.import
+Inv_RotationTrims == verdict.trims
 
-MCView == <<cfg, time, machTick, made, db, pend, saved, savedGc, steps, verdict>>
+MCView == <<cfg, time, machTick, made, db, pend, saved, savedGc, steps, verdict, pstart, opened, restarts>>
 =============================================================================
